@@ -77,6 +77,16 @@ Definition run_C20 (i : term) : term :=
     TL [TZ 0; TL []; TZ (Z.of_nat (List.length (filter (fun l => contains_char ">" l) (gss (gn i 1)))))]
   else if String.eqb op "e2e-webfirst" then
     TL [TZ 1; of_zs (repeat 200 (Z.to_nat (gz (gn i 2))))]
+  else if String.eqb op "ui-lines" then
+    (* ui_print_whole_lines: each Print is ONE write of message+newline, so any interleaving of the
+       writers is a sequence of whole lines: k*m lines, none empty, none torn *)
+    TL [TZ (gz (gn i 1) * gz (gn i 2)); TZ 0; TZ 0]
+  else if String.eqb op "ui-fetch" then
+    let good := gz (gn i 1) in TL [TZ (good * (good + 1) / 2); TZ 0; TZ 0]
+  else if String.eqb op "settings-read" then
+    (* a reader sees the file before or after a save (atomic replace), whatever the file is; re-saving
+       never removes a config, so every read lists all configs saved before *)
+    TL [TZ 1; TZ 0; TZ 0; of_ss (gss (gn i 2)); TL []]
   else if String.eqb op "cow1" then TZ 0   (* lost settings: get's lazy initialisation and update are single sections on one store *)
   else if String.eqb op "cow" then TZ 1
   else TL [TS "unknown-op"].
@@ -104,6 +114,9 @@ Definition spec_C20 (i o : term) : bool :=
   else if String.eqb op "e2e-perf" then term_eqb (run_C20 i) o     (* every conversion its own output name, all sources merged, nothing left behind *)
   else if String.eqb op "e2e-session" then term_eqb (run_C20 i) o  (* the session finishes, every redirected command wrote its file, no lock held *)
   else if String.eqb op "e2e-webfirst" then term_eqb (run_C20 i) o (* the process survives its first concurrent requests, all answered 200 *)
+  else if String.eqb op "ui-lines" then term_eqb (run_C20 i) o      (* every message a line of its own *)
+  else if String.eqb op "ui-fetch" then term_eqb (run_C20 i) o      (* parallel run prints the lines of the one-at-a-time runs *)
+  else if String.eqb op "settings-read" then term_eqb (run_C20 i) o (* no page ever loses the saved configs *)
   else if String.eqb op "cow1" then term_eqb (run_C20 i) o       (* a setting made during the first use is never lost *)
   else if String.eqb op "errpaths" then term_eqb (run_C20 i) o   (* rejected like one at a time, nothing blocked, no lock leaked *)
   else if String.eqb op "registry" then term_eqb (run_C20 i) o   (* no registered file leaked, no cleanup failed *)
